@@ -54,8 +54,15 @@ ASSUMPTIONS = [
     "NOT generated (outside the mutators the property lists; see the 'outside' entries of DIMENSIONS): assignments to attributes of a "
     "state object the obstacle holds other than through initial_state=, vertex setters and the distance setter of a lanelet, edits of "
     "an Occupancy returned by a TrajectoryPrediction query, Trajectory.initial_time_step= (it produces a trajectory the public "
-    "constructor rejects), history lists of unequal length handed to the DynamicObstacle constructor, update_initial_state with a "
-    "non-InitialState argument (it raises after appending to the histories), DynamicObstacle wheelbase_lengths with more than one shape",
+    "constructor rejects), history lists of unequal length handed to the DynamicObstacle constructor, DynamicObstacle wheelbase_lengths "
+    "with more than one shape",
+    "update_initial_state calls REJECTED by a validating setter (op update_rej: a state that is no InitialState, a signal state that is no "
+    "SignalState, lanelet ids that are a list / tuple / frozenset / set of numpy integers / of strings / of floats, one or several "
+    "arguments at once) ARE generated; the caller catches the AssertionError and goes on. The oracle demands of such a call only what the "
+    "property sentence states: the four lists are left as they were, or all four are one entry longer by the four values that were current "
+    "together when the call began (equal length, entry i of each list from the same previous state); the bound max_history_length is owed "
+    "again by the next accepted call (the real code appends first and raises before it cuts: m + 1 entries until then; model "
+    "Obs.rejectedUpdate, C11_rejected_update_step / C11_rejected_then_accepted)",
     "add_lanelet / remove_lanelet with rtree=False ask for the index NOT to be rebuilt: lookups are compared with the model but "
     "not judged by the oracle until an add/remove with rtree=True has rebuilt it; likewise after a network translate_rotate that raised "
     "half way on a 3-D lanelet (the model says which lanelets moved) until a later translate_rotate / replacement rebuilds the index",
@@ -113,6 +120,10 @@ REQUIRED_BUCKETS = [f"row/{i}/{m}" for i, m in ROWS] + [
     "dim/remove-lanelet-list", "dim/half-moved-network-then-queries", "dim/cycle-copy", "dim/cycle-set_dur", "dim/cycle-set_state",
     "dim/cycle-list_edit", "dim/cycle-aggregate-preserving-edit", "dim/next-state-agrees-pos", "dim/next-state-agrees-pos+ori",
     "dim/next-state-agrees-ori", "dim/next-state-agrees-pos+ori+vel",
+    # round 7: update_initial_state calls REJECTED by a validating setter (each argument in turn), further calls and observations follow
+    "dim/update-rejected-then-calls", "hist/rejected-arg-0", "hist/rejected-arg-1", "hist/rejected-arg-2", "hist/rejected-arg-3",
+    "hist/rejected-several-args", "hist/rejected-numpy-ids", "hist/rejected-call-appended", "hist/accepted-after-rejected",
+    "hist/observed-after-rejected",
     # round 6: a list removal that raises half way followed by lookups; a second network derived from the first, both alive
     "dim/remove-lanelet-list-raises-half-way", "dim/remove-lanelet-unregistered", "dim/half-removed-list-then-lookup",
     "dim/replace-network-raises-half-way",
@@ -320,8 +331,9 @@ DIMENSIONS = {'TrajectoryPrediction': {'trajectory': 'varied: 1..8 states; KSSta
                      'shape_lanelet_ids_history': "varied: with 'hist0'",
                      'kwargs': "varied: wheelbase_lengths keyword with a one-shape ShapeGroup ('owb'); with more shapes the InitialState has no "
                                'hitch_angle (outside)',
-                     'update_initial_state': 'varied: op update, bounds 1..6 / default / lowered / non-positive (raises, history goes on); a '
-                                             'non-InitialState argument raises AFTER appending to the histories — not generated (ASSUMPTIONS)',
+                     'update_initial_state': 'varied: op update, bounds 1..6 / default / lowered / non-positive (raises, history goes on); op '
+                                             'update_rej: each argument in turn (and several at once) of a kind its setter rejects, then '
+                                             'further accepted / rejected calls and q_hist (buckets hist/rejected-arg-0..3)',
                      'update_prediction': "varied: op set_pred via 'update_prediction'"},
  'Lanelet': {'left_vertices': 'varied: 2..6 vertices, straight / bent / tapered, 2-D / 3-D, float / int arrays (g_lanelet); the setter is outside '
                               '(not a listed mutator; documented in the code as invalidating)',
@@ -881,6 +893,36 @@ def b_ids(i):
     return None if i == 0 else {i, 10 * i + 1}
 
 
+BAD_STATE = ["ks-state", "none", "dict"]
+BAD_SIGNAL = ["str", "int", "initial-state"]
+BAD_IDS = ["list", "np-int-set", "np-int64-from-array", "tuple", "frozenset", "str-set", "float-set", "int"]
+
+
+def g_bad_args(r):
+    """Which arguments of a rejected update_initial_state call are invalid (0 state, 1 signal state, 2 centre ids, 3 shape ids) and how."""
+    first = r.choice([0, 1, 2, 2, 3, 3])
+    bad = {str(first): r.choice([BAD_STATE, BAD_SIGNAL, BAD_IDS, BAD_IDS][first])}
+    for later in range(first + 1, 4):
+        if r.random() < 0.3:
+            bad[str(later)] = r.choice([BAD_STATE, BAD_SIGNAL, BAD_IDS, BAD_IDS][later])
+    return bad
+
+
+def b_bad_arg(i, how, ids):
+    """An argument the setter behind update_initial_state rejects (ids: the lanelet-id token the valid value would be built from)."""
+    import numpy as np
+    from commonroad.scenario.state import KSState
+    vals = sorted(b_ids(ids or 0) or {3, 31})
+    if i == 0:
+        return {"ks-state": KSState(time_step=1, position=np.array([0.0, 0.0]), orientation=0.0, velocity=0.0), "none": None,
+                "dict": {"time_step": 1}}[how]
+    if i == 1:
+        return {"str": "braking", "int": 1, "initial-state": b_init({"t": 1, "x": 0.0, "y": 0.0, "o": 0.0, "v": 0.0})}[how]
+    return {"list": list(vals), "np-int-set": {np.int32(x) for x in vals}, "np-int64-from-array": set(np.array(vals)),
+            "tuple": tuple(vals), "frozenset": frozenset(vals), "str-set": {str(x) for x in vals}, "float-set": {float(x) + 0.5 for x in vals},
+            "int": vals[0]}[how]
+
+
 # ------------------------------------------------------------------------------------------------ family obs: generator
 
 def gen_obs(ctx):
@@ -971,7 +1013,7 @@ def gen_obs(ctx):
     for _ in range(r.choice([1, 2, 2, 3, 4])):
         kinds = ["tr", "tr", "set_init", "set_shape", "set_meta", "fail"]
         if dynamic:
-            kinds += ["set_pred", "set_pred", "update", "update", "update"]
+            kinds += ["set_pred", "set_pred", "update", "update", "update", "update_rej"]
             if pred is not None:
                 kinds += ["p_tr", "p_tr"]
                 if pred["k"] == "traj":
@@ -988,6 +1030,32 @@ def gen_obs(ctx):
                 pred, n_upd = None, n_upd + 1
                 ops.append(["q_hist"])
             ops += queries()
+            continue
+        if k == "update_rej":
+            # update_initial_state calls a validating setter REJECTS (each argument in turn invalid, also several at once), the caller
+            # catches the AssertionError and carries on: more calls follow, accepted and rejected, and all four history lists are observed
+            m = bound if r.random() < 0.8 else r.choice([1, 2, 3, None])
+            for _i in range(r.choice([1, 1, 2])):
+                bad = g_bad_args(r)
+                t0n = t0 + 1
+                ops.append(["update_rej", g_next_state(r, t0n), r.choice([0, 1, 2, 3]), r.choice([0, 5, 6]), r.choice([0, 7]), m, bad])
+                if min(int(a) for a in bad) >= 1:
+                    t0 = t0n                     # the state setter was reached before the call raised
+                if r.random() < 0.6:
+                    ops.append(["q_hist"])
+                if r.random() < 0.25:
+                    ops.append(["tr", *g_motion_nz(r), "obstacle"])
+            for _i in range(r.choice([1, 2, 3])):
+                t0 += 1
+                ops.append(["update", g_next_state(r, t0), r.choice([0, 1, 2, 3]), r.choice([0, 5, 6]), r.choice([0, 7]), m])
+                pred, n_upd = None, n_upd + 1
+                if r.random() < 0.7:
+                    ops.append(["q_hist"])
+            if ops[-1] != ["q_hist"]:
+                ops.append(["q_hist"])
+            ops += queries()
+            if len(ops) >= 12:
+                break
             continue
         if k == "fail":
             # a mutator that raises before it changes anything; the history goes on
@@ -1116,6 +1184,7 @@ def fresh_obstacle(o):
 
 MUT_NAMES = {"tr": "Obstacle.translate_rotate", "set_init": "Obstacle.initial_state=", "set_shape": "Obstacle.obstacle_shape=",
              "set_pred": "DynamicObstacle.prediction=", "update": "DynamicObstacle.update_initial_state",
+             "update_rej": "DynamicObstacle.update_initial_state(rejected)",
              "p_shape": "TrajectoryPrediction.shape=", "p_traj": "TrajectoryPrediction.trajectory=",
              "p_wb": "TrajectoryPrediction.wheelbase_lengths=", "p_asg": "TrajectoryPrediction.lanelet_assignment=",
              "p_tr": "Prediction.translate_rotate", "t_tr": "Trajectory.translate_rotate(held)", "t_app": "Trajectory.append_state(held)",
@@ -1215,6 +1284,7 @@ def run_obs(ctx, case, model=True):
     exp_cen = [plain(b_ids(h["cen"])) for h in hist0]
     exp_shp = [plain(b_ids(h["shp"])) for h in hist0]
     all_prev, bounds = list(exp_hist), set()
+    rej_pending = False       # a rejected update_initial_state appended to the lists without cutting them; the next accepted call cuts
     v = 0
     last_mut = "construction"
     shape_obs = copy.deepcopy(obs.obstacle_shape)
@@ -1308,7 +1378,9 @@ def run_obs(ctx, case, model=True):
                     ctx.fail("C11/update_initial_state/history-not-the-most-recent-states",
                              f"history after {len(all_prev)} updates is {json.dumps(got['h'])[:200]}; the most recent previous initial states "
                              f"(each moved by the translate_rotate calls since it was replaced) are {json.dumps(want['h'])[:200]}", case)
-                if len(bounds) == 1 and not same_states(got["h"], all_prev[-next(iter(bounds)):]):
+                if rej_pending:
+                    ctx.tag("hist/observed-after-rejected")
+                if len(bounds) == 1 and not rej_pending and not same_states(got["h"], all_prev[-next(iter(bounds)):]):
                     ctx.fail("C11/update_initial_state/history-not-last-m",
                              f"history is not the last {next(iter(bounds))} of the {len(all_prev)} previous initial states", case)
                 if all_prev:
@@ -1390,6 +1462,9 @@ def run_obs(ctx, case, model=True):
                     ctx.tag("hist/bound-lowered")
                 bounds.add(mm)
                 all_prev.append(prev[0])
+                if rej_pending and r[0] == "ok":
+                    ctx.tag("hist/accepted-after-rejected")
+                    rej_pending = False
                 exp_hist = (exp_hist + [prev[0]])[-mm:]
                 exp_sig = (exp_sig + [prev[1]])[-mm:]
                 exp_cen = (exp_cen + [prev[2]])[-mm:]
@@ -1400,6 +1475,50 @@ def run_obs(ctx, case, model=True):
             if isinstance(p, TrajectoryPrediction):
                 rows.mutate("occupancySet", "obsUpdateInitialState")
             m_ops.append(["update", v, st["t"], sg, ce, sh, mm])
+        elif k == "update_rej":
+            st, sg, ce, sh, m, bad = op[1], op[2], op[3], op[4], op[5], {int(a): b for a, b in op[6].items()}
+            k_bad = min(bad)
+            prev = (c_state(obs.initial_state), c_signal(obs.initial_signal_state), plain(obs.initial_center_lanelet_ids),
+                    plain(obs.initial_shape_lanelet_ids))
+            len_before = [len(obs.history), len(obs.signal_history), len(obs.center_lanelet_ids_history), len(obs.shape_lanelet_ids_history)]
+            args = [b_init(st, obs.initial_state), b_signal(sg), b_ids(ce), b_ids(sh)]
+            for a, how in bad.items():
+                args[a] = b_bad_arg(a, how, [None, None, ce, sh][a])
+            kw = {} if m is None else {"max_history_length": m}
+            r = call(obs.update_initial_state, *args, **kw)
+            mm = 6000 if m is None else m
+            ctx.tag("dim/update-rejected-then-calls")
+            ctx.tag(f"hist/rejected-arg-{k_bad}")
+            if len(bad) > 1:
+                ctx.tag("hist/rejected-several-args")
+            if any("np-int" in b for b in bad.values()):
+                ctx.tag("hist/rejected-numpy-ids")
+            if r[0] == "ok":
+                # the library took the argument after all (e.g. it learnt to accept numpy integers): not a rejected call, nothing this
+                # dimension is about - the case is outside the quantifier from here on (the hist/rejected-arg-* buckets notice a total loss)
+                ctx.excluded += 1
+                ctx.tag("hist/invalid-argument-accepted")
+                return
+            # oracle: a rejected call leaves the four lists as they were, or all four one entry longer by the four values that were current
+            # together when the call began - nothing in between (the property's 'all history lists of equal length', entry i of each list
+            # belonging to the same previous state); the bound is owed again by the next accepted call
+            len_after = [len(obs.history), len(obs.signal_history), len(obs.center_lanelet_ids_history), len(obs.shape_lanelet_ids_history)]
+            grew = [b - a for a, b in zip(len_before, len_after)]
+            if len(set(grew)) != 1:
+                ctx.fail("C11/update_initial_state/history-lists-differ-in-length/after-rejected-call",
+                         f"update_initial_state rejected its argument {k_bad} ({bad[k_bad]}, {r[1]}) and left the lengths of history / "
+                         f"signal_history / center_lanelet_ids_history / shape_lanelet_ids_history at {len_after} (before the call: {len_before})", case)
+            if grew[0] == 1:
+                all_prev.append(prev[0])
+                exp_hist, exp_sig, exp_cen, exp_shp = exp_hist + [prev[0]], exp_sig + [prev[1]], exp_cen + [prev[2]], exp_shp + [prev[3]]
+                rej_pending = True
+                ctx.tag("hist/rejected-call-appended")
+            elif grew[0] != 0:
+                ctx.fail("C11/update_initial_state/history-changed-by-rejected-call",
+                         f"a rejected update_initial_state changed the length of history from {len_before[0]} to {len_after[0]}", case)
+            if k_bad >= 1:
+                rows.mutate("initialOccupancy", "obsSetInitialState")      # the state setter was reached
+            m_ops.append(["update_rej", k_bad, v, st["t"], sg, ce, mm])
         elif k in ("p_shape", "p_traj", "p_wb", "p_asg", "p_tr", "t_tr", "t_app"):
             if p is None:
                 v -= 1
